@@ -375,8 +375,13 @@ impl<'a> Parser<'a> {
         let hack_source = self.parse_optional_hack_source();
         let token = self.peek();
         if token.kind != TokenKind::Identifier {
-            // TODO
-            // self.record_error(error)
+            // A description (or nothing at all) that is not followed by a definition keyword.
+            // An error must be recorded: callers unwrap the document when no error was recorded.
+            let error = Diagnostic::error(
+                SyntaxError::Expected(TokenKind::Identifier),
+                Location::new(self.source_location, token.span),
+            );
+            self.record_error(error);
             return Err(());
         }
         match self.source(token) {
